@@ -170,6 +170,51 @@ def rule_raw_only(ctx, rep, cfgs, facts):
                      loc(ctx.model.unit_of(cfg.cls), cfg.cls.node))
 
 
+def rule_raw_closed_dispatch(ctx, rep, cfgs, facts):
+    """With process_html_tokens off, a raw-HTML token must not be renderable at all, whatever put it into the
+    (process-global) token lists: render() of an HtmlBlock/HtmlSpan is interpreted and must fail closed on
+    every path - a dispatch that falls back to a naming convention or a default would emit the raw text."""
+    from ..interp import Interp, enumerate_paths, Raised, LoopTruncated
+    model = ctx.model
+    for cfg in cfgs:
+        if cfg.valuation.get('process_html_tokens', True):
+            continue
+        hit = cfg.cls.lookup('render')
+        if hit is None or hit[0] != 'method':
+            raise AnalysisError('anchor vanished: %s.render' % cfg.cls.short)
+        render = hit[1]
+        for name in sorted(RAW_CLASSES):
+            cls = None
+            for mod in ('block_token', 'span_token'):
+                if model.has_cls('%s.%s' % (mod, name)):
+                    cls = model.cls('%s.%s' % (mod, name))
+            if cls is None:
+                continue
+            rep.instance('R-RAW-ONLY-HTML')
+
+            def run(oracle, cls=cls):
+                it = Interp(model, loop_bound=1)
+                it.reset_run(oracle)
+                T.install_string_hooks(it)
+                T.install_render_hooks(model, it)
+                it.func_hooks.pop(render.qualname, None)      # the dispatcher itself is what is interpreted here
+                try:
+                    return ('value', it.call_function(render, [T.clone_obj(cfg.obj), T.TokVal(cls, facts)], {}))
+                except Raised as r:
+                    return ('raise', r.exc.kind)
+                except LoopTruncated:
+                    return ('raise', 'loop bound')
+            outs = [res for tr, res in enumerate_paths(run, 200)]
+            leaks = [o for o in outs if o[0] == 'value']
+            ok = bool(outs) and not leaks
+            rep.obligation('R-RAW-ONLY-HTML', ok, {'config': cfg_label(cfg), 'render(%s)' % name: sorted({o[1] for o in outs if o[0] == 'raise'}) or 'returns'})
+            if not ok:
+                rep.find('R-RAW-ONLY-HTML', render.short, 'dispatch:%s' % name,
+                         'under %s, render() of a %s token returns output instead of failing: raw HTML is emitted although '
+                         'process_html_tokens is off (the token lists are process-global, another renderer may have registered %s)'
+                         % (cfg_label(cfg), name, name), loc(model.unit_of(render), render.node))
+
+
 def rule_sanitisers(ctx, rep, cfgs, facts):
     """Postconditions of the escaping helpers, computed from their own bodies."""
     model = ctx.model
@@ -216,6 +261,7 @@ def run(ctx):
             raise AnalysisError('HtmlRenderer(%s) cannot be constructed: %r' % (cfg.options, cfg.error))
     total_holes, methods, vocab = analyse_renderers(ctx, rep, cfgs, facts)
     rule_raw_only(ctx, rep, cfgs, facts)
+    rule_raw_closed_dispatch(ctx, rep, cfgs, facts)
     rule_sanitisers(ctx, rep, cfgs, facts)
     rep.extra['tag_vocabulary'] = sorted(vocab)
     rep.extra['methods_analysed'] = sorted(methods)
